@@ -34,4 +34,5 @@ try:
         print(f'[mutant] {ID} rc={r.returncode}')
 finally:
     subprocess.run(['git','-C','/repo','checkout','--','.'])
+    subprocess.run('rm -rf /verif/replays/*/found', shell=True)
     print('[mutant] reverted /repo')
